@@ -36,10 +36,22 @@ RULE = ("seeded random cases for each of the six tools (yaml-get, yaml-set, yaml
         "and of the scalar, yaml-merge -D json (stdout, -o file, lone file, RHS from '-'), yaml-set on a JSON-style document (*.json file "
         "and '-'): every such scalar is rendered as its ISO 8601 text with the offset it was written with (computed from the literal "
         "with Python's datetime alone).  "
+        "yaml-merge with --config (400 cases, own stream): the ordinary merge cases with a readable INI file that carries part of the policy "
+        "in [defaults] and whose [rules] / [keys] sections are absent, empty or name a path no document has (MergerConfig warns, the "
+        "merge is unaffected), mostly written to STDOUT: STDOUT reloads to the library's merge, nothing else is on it.  "
+        "Hashes with YAML merge keys as JSON (real tools, 400 cases): YAML text with anchored mappings holding dates, timestamps, !!set, "
+        "tagged scalars, Booleans, words, numbers and mappings / list elements that take them in through `<<: *a` / `<<: [*a, *b]` "
+        "(own keys and earlier sources win); yaml-get of such a mapping, of a list of them, of the root (file / '-'), yaml-merge -D json, "
+        "yaml-set on the JSON-style form: exit 0 and ONE JSON value equal to the mapping with all its members (by construction).  "
+        "yaml-set --saveto (real tool, 400 cases): YAML text with scalars in every presentation (plain words, quoted, folded > / >- with "
+        "one to three lines and paragraph breaks, literal | / |-, numbers, Booleans) at top level, in mappings, in lists; "
+        "`-g PATH --saveto NEWPATH -a WORD` (both separators, file / '-', -b): the result reloads (ruamel safe loader) to the document the "
+        "set model predicts: old value - same data - at NEWPATH, WORD at PATH, the rest untouched.  "
         "distinct_nontrivial = distinct (tool, input text, argument vector) whose run reached the library (arguments accepted, input loaded).")
 
 HELP_LINE = "Please try --help for more information."
-QUICK = {"get": 2600, "set": 2200, "merge": 1300, "diff": 1500, "validate": 1500, "paths": 1300, "paths-alias": 500, "dates": 500}
+QUICK = {"get": 2600, "set": 2200, "merge": 1300, "diff": 1500, "validate": 1500, "paths": 1300, "paths-alias": 500, "dates": 500, "merge-config": 400,
+         "mergekeys": 400, "saveto": 400}
 
 
 def _n(tool, tier):
@@ -767,6 +779,46 @@ def gen_merge(rng):
     return case
 
 
+ABSENT_KEY = "zz_absent_q"
+
+
+def gen_merge_config(rng):
+    """yaml-merge with a readable --config INI file: part of the policy moves from the command line to [defaults]; the
+    [rules] / [keys] sections are absent, empty or name a path no document has (each makes MergerConfig log a warning
+    and changes nothing about the merge).  Mostly written to STDOUT, where the tool must print the document alone."""
+    c = gen_merge(rng)
+    if rng.random() < 0.9 or (c["bad"] or {}).get("k") == "bad-config":
+        c["bad"] = None
+    if rng.random() < 0.75:
+        c["out"], c["backup"] = "stdout", False
+    cfg = c["cfg"]
+    for name, opts in (("hash", mg.HASH), ("array", mg.ARRAY), ("aoh", mg.AOH), ("set", mg.SETS)):
+        x = rng.random()
+        if name in cfg and x < 0.5:
+            cfg["d" + name] = cfg.pop(name)
+        elif x < 0.65:
+            cfg["d" + name] = rng.choice(opts)          # next to a command-line value (which wins) or alone
+    c["ini"] = {"rules": rng.choice(["absent", "absent", "empty", "nomatch"]), "keys": rng.choice(["absent", "absent", "empty", "nomatch"])}
+    return c
+
+
+def write_merge_ini(case, path):
+    cfg, ini = case["cfg"], case["ini"]
+    names = {"hash": "hashes", "array": "arrays", "aoh": "aoh", "set": "sets"}
+    lines = []
+    d = [(n, cfg["d" + n]) for n in ("hash", "array", "aoh", "set") if cfg.get("d" + n)]
+    if d:
+        lines.append("[defaults]")
+        lines += ["%s = %s" % (names[n], v) for n, v in d]
+    for sec, val in (("rules", "left"), ("keys", "id")):
+        if ini[sec] != "absent":
+            lines.append("[%s]" % sec)
+        if ini[sec] == "nomatch":
+            lines.append("/%s/sub = %s" % (ABSENT_KEY, val))
+    with open(path, "w", encoding="utf-8") as fh:
+        fh.write("\n".join(lines) + "\n")
+
+
 def lib_merge(case, texts, outp=None):
     """The library's answer: Mergers over the loaded streams, combined with yaml_merge's own
     merge_condense_all / merge_across / merge_matrix in the order main() reads the inputs."""
@@ -856,7 +908,12 @@ def prep_merge(case):
     argv += ["-M", case["mode"]]
     if case["docformat"]:
         argv += ["-D", case["docformat"]]
-    config = "unset"
+    config, inip = "unset", None
+    if case.get("ini"):
+        inip = os.path.join(cc.tmpdir(), "merge-%d.ini" % os.getpid())
+        write_merge_ini(case, inip)
+        argv += ["-c", inip]
+        config = "good"
     if bad.get("k") == "bad-config":
         argv += ["-c", os.path.join(cc.tmpdir(), "no-such.ini")]
         config = "bad"
@@ -900,7 +957,7 @@ def prep_merge(case):
     r = run_tool(case, "merge", argv + files, stdin_text, tty)
     produced = read_file(outp) if outp else None
     bak = read_file(outp + ".bak") if outp else None
-    rm(*[p for p in paths], *( [outp, outp + ".bak"] if outp else []))
+    rm(*[p for p in paths], *( [outp, outp + ".bak"] if outp else []), *([inip] if inip else []))
     # the streams in the order main() reads them
     order = [(texts[i], stdin_at == i) for i in range(len(texts)) if not (stdin_at == i and how == "implicit")]
     if how == "implicit" and stdin_at is not None:
@@ -990,9 +1047,16 @@ def judge_merge(case, f, ctx, answers):
         try:
             got = parse_merge_output(produced or "", as_json)
         except Exception:  # noqa
-            f.viol("merge-output-unloadable", "%s wrote %s (%s expected)" % (desc, _show(produced or ""), "JSON" if as_json else "YAML"))
+            logged = [l for l in out_lines(r["out"]) if l.startswith("WARNING:  ")] if not ctx["outp"] else []
+            f.viol("merge-stdout-holds-log-lines" if logged else "merge-output-unloadable",
+                   "%s wrote %s (%s expected)" % (desc, _show(produced or ""), "JSON" if as_json else "YAML"))
             return
         want = lib["docs"]
+        logged = [l for l in out_lines(r["out"]) if l.startswith("WARNING:  ")] if not ctx["outp"] else []
+        if logged and not _merge_same(got, want, as_json):
+            f.viol("merge-stdout-holds-log-lines", "%s: the merged document goes to STDOUT, which also holds the logger's line(s) %s: "
+                   "STDOUT is not the merge result (%s)" % (desc, logged[:2], _show(r["out"], 300)))
+            return
         if not _merge_same(got, want, as_json):
             f.viol("merge-result-differs-from-library", "%s wrote %s; the library's merge of the same inputs is %s" % (
                 desc, _show(produced or "", 300), [_showj(d) for d in want]))
@@ -2085,6 +2149,339 @@ def judge_dates(case, f, ctx, answers):
     return
 
 
+# =========================================================================== hashes that use YAML merge keys, as JSON
+# (real tools only.)  A mapping that takes members from anchored mappings through `<<: *anchor` / `<<: [*a, *b]` IS, for every
+# reader of the document, the mapping with those members (own keys win, earlier merge sources win over later ones).  The
+# anchored sources hold what JSON has no type for - dates, timestamps, `!!set`, tagged scalars - next to words and numbers.
+# yaml-get of such a mapping (or of a container holding it) prints ONE JSON line with all its members and exits 0;
+# yaml-merge -D json and yaml-set on the JSON-style form write the same data.  Expected data come from the construction.
+
+def mk_leaf(rng, st):
+    r = rng.random()
+    if r < 0.12:
+        members = rng.sample(["a", "b", "c", "d1"], rng.randint(1, 3))
+        return "!!set {%s}" % ", ".join(members), {m: None for m in members}, "set"
+    if r < 0.24:
+        w = rng.choice(["launch", "widget", "x1"])
+        return "!%s %s" % (rng.choice(["mytag", "secret", "t"]), w), w, "tagged"
+    if r < 0.30:
+        b = rng.random() < 0.5
+        return ("true" if b else "false"), b, "bool"
+    return dj_leaf(rng, st)
+
+
+def gen_mergekeys(rng):
+    st = {"anchors": [], "scalars": [], "containers": [], "n": 0}
+    block, flow, exp = [], [], {}
+    bases = []
+    nb = rng.randint(1, 3)
+    pool = ["when", "ts", "tag", "members", "n", "w", "at", "day"]
+    for b in range(nb):
+        name = "b%d" % b
+        keys = rng.sample(pool, rng.randint(1, 4))
+        e, fl = {}, []
+        block.append("base%d: &%s" % (b, name))
+        for k in keys:
+            lit, v, kind = mk_leaf(rng, st)
+            e[k] = v
+            block.append("  %s: %s" % (k, lit))
+            fl.append("%s: %s" % (k, lit))
+        if not any(dj_kind(v) != "other" or isinstance(v, dict) for v in e.values()) or rng.random() < 0.3:
+            lit, v = dj_ts(rng, True) if rng.random() < 0.5 else ("2001-12-14", "2001-12-14")
+            e["stamp%d" % b] = v
+            block.append("  stamp%d: %s" % (b, lit))
+            fl.append("stamp%d: %s" % (b, lit))
+        exp["base%d" % b] = e
+        flow.append("base%d: &%s {%s}" % (b, name, ", ".join(fl)))
+        bases.append((name, e))
+    users = []
+
+    def user(indent):
+        """-> (block lines, flow text, expected)"""
+        srcs = rng.sample(bases, rng.randint(1, min(2, len(bases))))
+        mk = "*" + srcs[0][0] if len(srcs) == 1 and rng.random() < 0.8 else "[%s]" % ", ".join("*" + n for n, _ in srcs)
+        e, own, fl = {}, [], []
+        for _ in range(rng.randint(0, 2)):
+            st["n"] += 1
+            k = rng.choice(pool) if rng.random() < 0.35 else "own%d" % st["n"]
+            if k in e:
+                continue
+            lit, v, kind = mk_leaf(rng, st)
+            e[k] = v
+            own.append("%s: %s" % (k, lit))
+            fl.append("%s: %s" % (k, lit))
+        for _n2, src in srcs:
+            for k, v in src.items():
+                e.setdefault(k, v)
+        pos = rng.randint(0, len(own))
+        lines = own[:pos] + ["<<: " + mk] + own[pos:]
+        fl = fl[:pos] + ["<<: " + mk] + fl[pos:]
+        return [indent + l for l in lines], "{" + ", ".join(fl) + "}", e
+    for u in range(rng.randint(1, 3)):
+        name = "use%d" % u
+        if rng.random() < 0.7:
+            lines, fl, e = user("  ")
+            block.append("%s:" % name)
+            block += lines
+            flow.append("%s: %s" % (name, fl))
+            exp[name] = e
+            users.append(([name], e))
+        else:
+            items, fls, es = [], [], []
+            for i in range(rng.randint(1, 2)):
+                lines, fl, e = user("    ")
+                lines[0] = "  - " + lines[0][4:]
+                items += lines
+                fls.append(fl)
+                es.append(e)
+                users.append(([name, i], e))
+            if rng.random() < 0.5:
+                items.append("  - plain")
+                fls.append("plain")
+                es.append("plain")
+            block.append("%s:" % name)
+            block += items
+            flow.append("%s: [%s]" % (name, ", ".join(fls)))
+            exp[name] = es
+            users.append(([name], es))
+    block.append("last: 1")
+    flow.append("last: 1")
+    exp["last"] = 1
+    mode = rng.choice(["get", "get", "get", "merge", "set"])
+    case = {"tool": "mergekeys", "mode": mode, "yaml": "---\n" + "\n".join(block) + "\n", "flow": "{" + ", ".join(flow) + "}\n",
+            "expected": exp, "delivery": rng.choice(["file", "file", "dash"])}
+    if mode == "get":
+        addr, e = rng.choice(users + [([], exp)])
+        case["query"], case["qexp"] = dj_path(addr), e
+    elif mode == "merge":
+        case["to_file"] = rng.random() < 0.3
+        case["alone"] = rng.random() < 0.4
+    return case
+
+
+def prep_mergekeys(case):
+    f = F()
+    mode, exp, pid = case["mode"], case["expected"], os.getpid()
+
+    def judged_json(sig, desc, text, want):
+        try:
+            got = json.loads(text)
+        except ValueError:
+            f.viol("mergekeys-json:%s:output-is-not-json" % sig, "%s prints %r" % (desc, text[:200]))
+            return
+        d = dj_diff(want, got)
+        if d:
+            f.viol("mergekeys-json:%s:%s-differs" % (sig, d[0]), "%s: %s (members merged in through `<<:` are members of the mapping); "
+                   "output %s" % (desc, d[1], text[:400]))
+
+    def ran(r, desc, sig):
+        if r.get("timeout"):
+            f.viol("timeout:mergekeys", desc + " did not finish")
+            return False
+        if "crash" in r:
+            f.viol("mergekeys-json:%s:uncaught-%s@%s" % (sig, r["crash"], r.get("site")), "%s lets %s escape (%s)" % (
+                desc, r["crash"], r.get("msg", "")))
+            return False
+        if r["rc"] != 0:
+            f.viol("mergekeys-json:%s:exit=%d" % (sig, r["rc"]), "%s exits %d although the node exists: %s" % (
+                desc, r["rc"], r.get("err", "")[-200:]))
+            return False
+        return True
+    f.count("mergekeys:" + mode)
+    if mode == "get":
+        path = write_file("mk-%d.yaml" % pid, case["yaml"])
+        q = case["query"]
+        if case["delivery"] == "dash":
+            r = run_tool(case, "get", ["-p", q, "-"], case["yaml"], False)
+        else:
+            r = run_tool(case, "get", ["-p", q, path], "", True)
+        desc = "yaml-get -p %s on %s [%s]" % (q, _show(case["yaml"], 500), case["delivery"])
+        if ran(r, desc, "get"):
+            lines = out_lines(r["out"])
+            if len(lines) != 1:
+                f.viol("mergekeys-json:get:lines", "%s prints %d lines for one matched node" % (desc, len(lines)))
+            else:
+                judged_json("get", desc, lines[0], case["qexp"])
+        rm(path)
+    elif mode == "merge":
+        path = write_file("mk-%d.yaml" % pid, case["yaml"])
+        rhs = write_file("mk-rhs-%d.yaml" % pid, "---\nzz_extra: 1\n")
+        outp = os.path.join(cc.tmpdir(), "mk-out-%d.json" % pid)
+        rm(outp)
+        want = dict(exp) if case["alone"] else dict(exp, zz_extra=1)
+        argv = ["-S", "-D", "json"] + (["-o", outp] if case["to_file"] else [])
+        if case["delivery"] == "dash" and not case["alone"]:
+            argv, stdin_text = [a for a in argv if a != "-S"] + [path, "-"], "---\nzz_extra: 1\n"
+        else:
+            argv, stdin_text = argv + [path] + ([] if case["alone"] else [rhs]), ""
+        r = run_tool(case, "merge", argv, stdin_text, not stdin_text)
+        desc = "yaml-merge %s with LHS %s" % (" ".join(os.path.basename(a) if a.startswith("/") else a for a in argv), _show(case["yaml"], 500))
+        if ran(r, desc, "merge"):
+            text = read_file(outp) if case["to_file"] else r["out"]
+            judged_json("merge", desc, text or "", want)
+        rm(path, rhs, outp)
+    else:
+        want = dict(exp, last=7)
+        path = write_file("mk-%d.json" % pid, case["flow"])
+        if case["delivery"] == "dash":
+            r = run_tool(case, "set", ["-g", "last", "-a", "7", "-"], case["flow"], False)
+        else:
+            r = run_tool(case, "set", ["-g", "last", "-a", "7", path], "", True)
+        desc = "yaml-set -g last -a 7 on the JSON-style document %s [%s]" % (_show(case["flow"], 500), case["delivery"])
+        if ran(r, desc, "set"):
+            text = r["out"] if case["delivery"] == "dash" else read_file(path)
+            judged_json("set", desc, text or "", want)
+        rm(path, path + ".bak")
+    f.nontrivial = ("mergekeys", mode, case["yaml"], case.get("query"), case["delivery"])
+    return f, None, None
+
+
+# =========================================================================== yaml-set --saveto keeps the old value
+# (real tool only; the Lean model treats --saveto as validated-but-opaque.)  Documents from YAML TEXT whose scalars are written
+# in every presentation YAML has: plain (several words), single- / double-quoted, folded block (`>`, `>-`, one to three
+# lines, paragraph breaks) and literal block (`|`, `|-`), numbers and Booleans.  `yaml-set -g PATH --saveto NEWPATH -a WORD`:
+# the file reloads (ruamel's safe loader, no yamlpath code) to the document the set model predicts: the former value of
+# PATH - the same data - sits at NEWPATH, PATH holds WORD, everything else is untouched.
+
+SV_WORDS = ["welcome", "to", "the", "machine", "room", "alpha", "b", "x1", "over", "and out"]
+
+
+def sv_scalar(rng, indent):
+    """-> text that follows `key:` (the block forms bring their own continuation lines), style name"""
+    def words(n):
+        return " ".join(rng.choice(SV_WORDS) for _ in range(n))
+    style = rng.choice(["plain", "plain", "single", "double", "folded", "folded", "folded", "literal", "literal", "int", "bool", "word"])
+    pad = " " * (indent + 2)
+    if style == "plain":
+        return " " + words(rng.randint(2, 5)), style
+    if style == "word":
+        return " " + rng.choice(SV_WORDS[:9]), style
+    if style == "single":
+        return " '%s'" % words(rng.randint(1, 4)), style
+    if style == "double":
+        return ' "%s"' % words(rng.randint(1, 4)), style
+    if style == "int":
+        return " %d" % rng.randint(0, 9000), style
+    if style == "bool":
+        return " " + rng.choice(["true", "false"]), style
+    ind = rng.choice(["", "", "-"])
+    lines = []
+    for i in range(rng.randint(1, 3)):
+        if i and style == "folded" and rng.random() < 0.2:
+            lines.append("")
+        lines.append(pad + words(rng.randint(1, 4)))
+    return " %s%s\n%s" % (">" if style == "folded" else "|", ind, "\n".join(lines)), style
+
+
+def gen_saveto(rng):
+    lines, targets = [], []
+    for i in range(rng.randint(2, 4)):
+        k = "k%d" % i
+        shape = rng.choice(["scalar", "scalar", "map", "seq"])
+        if shape == "scalar":
+            t, st = sv_scalar(rng, 0)
+            lines.append("%s:%s" % (k, t))
+            targets.append(([k], st))
+        elif shape == "map":
+            lines.append("%s:" % k)
+            for j in range(rng.randint(1, 3)):
+                t, st = sv_scalar(rng, 2)
+                lines.append("  s%d:%s" % (j, t))
+                targets.append(([k, "s%d" % j], st))
+        else:
+            lines.append("%s:" % k)
+            for j in range(rng.randint(1, 3)):
+                t, st = sv_scalar(rng, 4)
+                lines.append("  -%s" % t)
+                targets.append(([k, j], st))
+    lines.append("port: 80")
+    folded = [t for t in targets if t[1] == "folded"]
+    addr, style = rng.choice(folded) if folded and rng.random() < 0.4 else rng.choice(targets)
+    saveto = rng.choice([["saved_q"], ["saved_q"], ["backup_q", "old"], ["k0_old"]])
+    return {"tool": "saveto", "yaml": ("---\n" if rng.random() < 0.7 else "") + "\n".join(lines) + "\n", "target": addr, "style": style,
+            "saveto": saveto, "value": rng.choice(["closed", "hello", "n1", "two words"]),
+            "sep": rng.choice([".", "/"]), "delivery": rng.choice(["file", "file", "file", "dash"]), "backup": rng.random() < 0.2}
+
+
+def sv_path(addr, sep):
+    if sep == "/":
+        return "".join("[%d]" % a if isinstance(a, int) else "/" + a for a in addr)
+    return dj_path(addr)
+
+
+def sv_plain(data):
+    if isinstance(data, dict):
+        return {str(k): sv_plain(v) for k, v in data.items()}
+    if isinstance(data, list):
+        return [sv_plain(v) for v in data]
+    return data
+
+
+def prep_saveto(case):
+    import copy
+    from ruamel.yaml import YAML
+    f = F()
+    pid = os.getpid()
+    before = sv_plain(YAML(typ="safe").load(case["yaml"]))
+    model = copy.deepcopy(before)
+    node = model
+    for a in case["target"][:-1]:
+        node = node[a]
+    old = node[case["target"][-1]]
+    node[case["target"][-1]] = case["value"]
+    tgt = model
+    for a in case["saveto"][:-1]:
+        tgt = tgt.setdefault(a, {})
+    tgt[case["saveto"][-1]] = old
+    argv = ["-g", sv_path(case["target"], case["sep"]), "--saveto", sv_path(case["saveto"], case["sep"]), "-a", case["value"]]
+    path = write_file("saveto-%d.yaml" % pid, case["yaml"])
+    if case["delivery"] == "dash":
+        r = run_tool(case, "set", argv + ["-"], case["yaml"], False)
+    else:
+        if case["backup"]:
+            argv += ["-b"]
+        r = run_tool(case, "set", argv + ["-S", path], "", True)
+    desc = "yaml-set %s on %s [%s]" % (" ".join(_q(a) for a in argv), _show(case["yaml"], 500), case["delivery"])
+    f.count("saveto:old-value-" + case["style"])
+    text = r.get("out") if case["delivery"] == "dash" else read_file(path)
+    bak = read_file(path + ".bak")
+    rm(path, path + ".bak")
+    if r.get("timeout"):
+        f.viol("timeout:saveto", desc + " did not finish")
+        return f, None, None
+    if "crash" in r:
+        f.viol("saveto:uncaught-%s@%s" % (r["crash"], r.get("site")), "%s lets %s escape (%s)" % (desc, r["crash"], r.get("msg", "")))
+        return f, None, None
+    if r["rc"] != 0:
+        f.viol("saveto:exit=%d" % r["rc"], "%s exits %d although exactly one node matches: %s" % (desc, r["rc"], r.get("err", "")[-200:]))
+        return f, None, None
+    f.nontrivial = ("saveto", case["yaml"], tuple(argv), case["delivery"])
+    try:
+        got = sv_plain(YAML(typ="safe").load(text or ""))
+    except Exception:  # noqa
+        f.viol("saveto:result-unloadable", "%s leaves %s" % (desc, _show(text or "", 300)))
+        return f, None, None
+    if case["backup"] and case["delivery"] != "dash" and bak != case["yaml"]:
+        f.viol("set-backup-differs", "%s: FILE.bak is not the former content" % desc)
+    if got == model:
+        return f, None, None
+    g = got
+    try:
+        for a in case["saveto"]:
+            g = g[a]
+    except (KeyError, IndexError, TypeError):
+        g = None
+        f.viol("saveto:nothing-saved", "%s: nothing at the --saveto path; the file reloads to %s" % (desc, json.dumps(got, default=str)[:300]))
+        return f, None, None
+    if g != old or type(g) is not type(old):
+        f.viol("saveto:saved-value-differs:old-value-%s" % case["style"], "%s: the value saved at %s is %r, the value the node had is %r" % (
+            desc, sv_path(case["saveto"], case["sep"]), g, old))
+    else:
+        f.viol("saveto:document-differs-from-model", "%s: the file reloads to %s, the set model predicts %s" % (
+            desc, json.dumps(got, default=str)[:300], json.dumps(model, default=str)[:300]))
+    return f, None, None
+
+
 # =========================================================================== dispatcher
 
 TOOLS = {}
@@ -2101,6 +2498,8 @@ register("diff", gen_diff, prep_diff, judge_diff)
 register("validate", gen_validate, prep_validate, judge_validate)
 register("paths", gen_paths, prep_paths, judge_paths)
 register("dates", gen_dates, prep_dates, judge_dates)
+register("mergekeys", gen_mergekeys, prep_mergekeys, judge_dates)
+register("saveto", gen_saveto, prep_saveto, judge_dates)
 
 
 def run_chunk(job):
@@ -2159,6 +2558,12 @@ def gen_cases(seed, tier, only=None):
             c = TOOLS[tool][0](rng)
             c["sub"] = rng.random() < (0.012 if tier == "quick" else 0.004)
             cases.append(c)
+        if tool == "merge":
+            rng = random.Random("%s:merge-config" % seed)
+            for i in range(_n("merge-config", tier)):
+                c = gen_merge_config(rng)
+                c["sub"] = rng.random() < (0.012 if tier == "quick" else 0.004)
+                cases.append(c)
         if tool == "paths":
             # documents with key aliases x alias options: a stream of their own (the cases above stay what they were per seed)
             rng = random.Random("%s:paths-alias" % seed)
